@@ -2,6 +2,8 @@ import CbiVerif.Model.FindFold
 import CbiVerif.Model.FindInst
 import CbiVerif.Lemmas.FindFold
 import CbiVerif.Lemmas.FindInst
+import CbiVerif.Lemmas.FindCache
+import CbiVerif.Lemmas.FindCacheMono
 
 /-!
 # C08 — translation units and platforms are analysed in isolation and compose
@@ -243,8 +245,9 @@ theorem projection_counts [DecidableEq Key] (A : Entry → Except Err (Out Key W
 and platforms (the shared parse cache of the code; a hoisted macro table, include memo or
 once-list in a mutated code) attributes exactly what `findG A` does PROVIDED that state is
 transparent: under an invariant it never changes what a command observes (`Transparent`).
-This is the obligation the code's shared `ParserState.trees` has to meet; it is tested by
-the correspondence check, not proved (the preprocessor model is executable but opaque). -/
+This is the obligation the code's shared `ParserState.trees` has to meet; Part 3 discharges it
+for the explicit parse cache of the total model (`cache_transparent_partial`,
+`find_cached_eq_findG_partial`), up to the recorded finding F-C08-1 = D19. -/
 theorem transparent_state_refines {σ : Type} (Inv : σ → Prop)
     (step : σ → Entry → Except Err (Out Key Warn × σ)) (A : Entry → Except Err (Out Key Warn))
     (ht : Transparent Inv step A) (s0 : σ) (h0 : Inv s0) (c : Config Entry) :
@@ -390,5 +393,319 @@ def okWith (r : Except PP.Err (Acc NodeKey PP.Warn)) (n : Nat) (has : List (Node
 #guard okWith (findI demoFs demoCb (select ["gpu"] demoCfg)) 10 [(("/r/inc/h.h", 4), "gpu")] [(("/r/inc/h.h", 2), "cpu")]
 -- a permuted configuration
 #guard okWith (findI demoFs demoCb [("gpu", [demoG]), ("cpu", [demoB, demoA])]) 30 [(("/r/inc/h.h", 2), "cpu")] []
+
+/-! ## Part 3 — the code's actual shared state: the parse cache (`FindCache.findC`)
+
+`FindCache.findC S n cb cfg` is `finder.find` as the state-threading fold `findS` whose state is the
+explicit parse cache `ParserState.trees`/`langs` (file ↦ language class, parsed tree), one step being
+the total, fuelled engine of `Model/Exclude.lean` run on ONE database entry (`FindCache.cstep`).
+The driver op `c08find` executes exactly this definition (field `cached`) with the semantics
+`FindCache.semC fs`; the theorems hold for every semantics record `S` and every fuel `n`.
+
+`FindCache.analyse S n` is the cache-free analysis of one entry (`Exclude.runEntryRef`), so
+`findG (analyse S n)` is an instance of Part 1: all composition theorems apply to it.
+
+The cache is transparent except for one thing the code really does (finding F-C08-1 = D19): a file
+that is not pre-parsed keeps the language class of the command that reached it first.  The engine
+logs each use of a file under a class other than the one determined by the file and its includer
+(`Exclude.MixEv`); `FindCache.NoMix S n cb cfg` says the log of the run is empty, and is decidable. -/
+
+section Cache
+open CbiVerif.Exclude
+open CbiVerif.FindCache (cstep analyse mixedStep findC findRefG finalCache prep NoMix mixLog entryX)
+
+/-- the up-front parse of the code base and of every compiled file did not fail -/
+def PreOK (S : Sem) (cb : List String) (cfg : Config PP.Entry) : Prop :=
+  (prep S cb cfg).loc.err = none
+
+/-- FULL STATEMENT (false for the code as it is, see `not_cacheTransparent`): the parse cache is a
+transparent threaded state in the sense of `transparent_state_refines`.  The invariant: every cached
+tree is the parse of its file under the class it was first reached with. -/
+def CacheTransparent : Prop :=
+  ∀ (S : Sem) (n : Nat), Transparent (Exclude.Inv S) (cstep S n) (analyse S n)
+
+/-- **cache_transparent (proved part).**  From ANY cache satisfying the invariant, ANY database
+entry either logs a language-mixing event or shows exactly what the cache-free analysis of that
+entry shows (same visited nodes, same warnings, same exception), and in every case leaves a cache
+that satisfies the invariant again.  No hypothesis; the exclusion is the decidable flag
+`mixedStep`. -/
+theorem cache_transparent_partial (S : Sem) (n : Nat) :
+    TransparentUnless (Exclude.Inv S) (mixedStep S n) (cstep S n) (analyse S n) :=
+  FindCache.cstep_transparent_unless S n
+
+/-- `TransparentUnless` with nothing flagged IS `Transparent`: the proved part differs from the full
+statement only in the flagged steps. -/
+theorem transparent_unless_nothing {σ : Type} (Inv : σ → Prop)
+    (step : σ → Entry → Except Err (Out Key Warn × σ)) (A : Entry → Except Err (Out Key Warn)) :
+    Transparent Inv step A ↔ TransparentUnless Inv (fun _ _ => false) step A :=
+  transparent_iff_unless Inv step A
+
+/-- generic form: a run that threads a state which is transparent except on flagged steps, and in
+which no step is flagged, equals `findG A` (generalises `transparent_state_refines`). -/
+theorem transparent_unless_refines {σ : Type} (Inv : σ → Prop) (flag : σ → Entry → Bool)
+    (step : σ → Entry → Except Err (Out Key Warn × σ)) (A : Entry → Except Err (Out Key Warn))
+    (ht : TransparentUnless Inv flag step A) (s0 : σ) (h0 : Inv s0) (c : Config Entry)
+    (hc : cleanJobs flag step ((jobs c).map (·.2)) s0 = true) :
+    (match findS step s0 c with
+      | .ok (a, _) => .ok a
+      | .error er => .error er) = findG A c := by
+  have := findS_refines_unless Inv flag step A ht c {} s0 h0 hc
+  unfold findS findG
+  cases hS : List.foldlM (fun acc pe => List.foldlM (stepEntryS step pe.1) acc pe.2) ({}, s0) c with
+  | error er => rw [hS] at this; exact this.symm
+  | ok as => obtain ⟨a, s'⟩ := as; rw [hS] at this; exact this.1.symm
+
+/-- FULL STATEMENT (false for the code as it is, see `not_cachedEqFindG`): the cached run is the
+generic fold over the cache-free single-command analysis, for every configuration. -/
+def CachedEqFindG : Prop :=
+  ∀ (S : Sem) (n : Nat) (cb : List String) (cfg : Config PP.Entry), findC S n cb cfg = findRefG S n cb cfg
+
+/-- **find_cached_eq_findG (proved part).**  For every semantics, fuel, code base and configuration
+(any number of platforms and commands): if the run logs no language-mixing event, the analysis with
+the shared parse cache returns exactly what the up-front parse followed by `findG (analyse S n)`
+returns — the same attribution pairs in the same order, the same warnings, the same exception. -/
+theorem find_cached_eq_findG_partial (S : Sem) (n : Nat) (cb : List String) (cfg : Config PP.Entry)
+    (hmix : NoMix S n cb cfg) : findC S n cb cfg = findRefG S n cb cfg :=
+  FindCache.findC_eq_findRefG S n cb cfg hmix
+
+/-- … hence, when the up-front parse succeeds, the cached run IS `findG` of Part 1 -/
+theorem find_cached_is_findG_partial (S : Sem) (n : Nat) (cb : List String) (cfg : Config PP.Entry)
+    (hpre : PreOK S cb cfg) (hmix : NoMix S n cb cfg) : findC S n cb cfg = findG (analyse S n) cfg := by
+  rw [find_cached_eq_findG_partial S n cb cfg hmix, FindCache.findRefG_of_prep hpre]
+
+/-- **the invariant of the cache**, with or without mixing events: whatever the run leaves in the
+cache is the parse of the file's text under the class recorded with it -/
+theorem cached_tree_is_parse (S : Sem) (n : Nat) (cb : List String) (cfg : Config PP.Entry)
+    (hpre : PreOK S cb cfg) (g : String) (cl : LClass) (t : Parsed)
+    (h : (g, cl, t) ∈ finalCache S n cb cfg) : S.parseAs cl g = .ok t :=
+  FindCache.finalCache_inv S n cb cfg hpre g cl t h
+
+/-- the up-front parse succeeds iff every file of the code base and every compiled file parses under
+the class of its extension -/
+theorem preOK_iff (S : Sem) (cb : List String) (cfg : Config PP.Entry) :
+    PreOK S cb cfg ↔ ∀ f ∈ cb ++ entryFiles cfg, ∃ cl t, S.extClass f = some cl ∧ S.parseAs cl f = .ok t :=
+  FindCache.prep_ok_iff S cb cfg
+
+/-! ### the composition theorems, for the run with the shared cache -/
+
+/-- **union_of_commands** for the cached run: platform `p` uses node `k` iff some command of `p`
+uses it when the tool is run (with its cache) on that command alone. -/
+theorem cached_union_of_commands_partial (S : Sem) (n : Nat) (cb : List String) (cfg : Config PP.Entry)
+    (r : Acc FindCache.NodeKey PP.Warn) (h : findC S n cb cfg = .ok r) (hmix : NoMix S n cb cfg)
+    (p : String) (hsub : ∀ e, e ∈ entriesOf cfg p → NoMix S n cb [(p, [e])]) (k : FindCache.NodeKey) :
+    Attr r p k ↔
+      ∃ e, e ∈ entriesOf cfg p ∧ ∃ r1, findC S n cb [(p, [e])] = .ok r1 ∧ Attr r1 p k := by
+  have hpre := FindCache.findC_ok_prep h
+  rw [find_cached_is_findG_partial S n cb cfg hpre hmix] at h
+  rw [union_of_commands _ cfg r h p k]
+  constructor
+  · rintro ⟨e, he, r1, hr1, hk⟩
+    refine ⟨e, he, r1, ?_, hk⟩
+    rw [find_cached_is_findG_partial S n cb _ (FindCache.prep_single S cb cfg p e hpre he) (hsub e he)]
+    exact hr1
+  · rintro ⟨e, he, r1, hr1, hk⟩
+    refine ⟨e, he, r1, ?_, hk⟩
+    rw [find_cached_is_findG_partial S n cb _ (FindCache.prep_single S cb cfg p e hpre he) (hsub e he)] at hr1
+    exact hr1
+
+/-- **perm_invariant** for the cached run -/
+theorem cached_perm_invariant_partial (S : Sem) (n : Nat) (cb : List String) {cfg cfg' : Config PP.Entry}
+    (hc : CfgPerm cfg cfg') (r : Acc FindCache.NodeKey PP.Warn) (h : findC S n cb cfg = .ok r)
+    (hmix : NoMix S n cb cfg) (hmix' : NoMix S n cb cfg') :
+    ∃ r', findC S n cb cfg' = .ok r' ∧ r.pairs.Perm r'.pairs ∧ r.warns.Perm r'.warns := by
+  have hpre := FindCache.findC_ok_prep h
+  rw [find_cached_is_findG_partial S n cb cfg hpre hmix] at h
+  obtain ⟨r', hr', hp, hw⟩ := perm_invariant _ hc r h
+  exact ⟨r', by rw [find_cached_is_findG_partial S n cb cfg' (FindCache.prep_perm S cb hc hpre) hmix']; exact hr',
+    hp, hw⟩
+
+/-- **projection** for the cached run (`-p X`) -/
+theorem cached_projection_partial (S : Sem) (n : Nat) (cb : List String) (cfg : Config PP.Entry)
+    (r : Acc FindCache.NodeKey PP.Warn) (h : findC S n cb cfg = .ok r) (X : List String)
+    (hmix : NoMix S n cb cfg) (hmixX : NoMix S n cb (select X cfg)) :
+    ∃ rX, findC S n cb (select X cfg) = .ok rX ∧
+      rX.pairs = r.pairs.filter (fun kp => X.isEmpty || X.contains kp.2) := by
+  have hpre := FindCache.findC_ok_prep h
+  rw [find_cached_is_findG_partial S n cb cfg hpre hmix] at h
+  obtain ⟨rX, hrX, hp⟩ := projection _ cfg r h X
+  exact ⟨rX, by rw [find_cached_is_findG_partial S n cb _ (FindCache.prep_select S cb cfg X hpre) hmixX]; exact hrX,
+    hp⟩
+
+/-! ### non-vacuity, and the witnesses that the unguarded statements are false (F-C08-1 = D19)
+
+A toy semantics.  `c.c`, `d.c` (C) include `h.h` (C by extension); `a.f90`, `e.f90` (Fortran) and
+`b.c` (C) include a header: `a.f90` and `b.c` include `x.inc` (no extension class), `e.f90` includes
+`h.h`.  Parsed as Fortran a header has two nodes (its `#define` sits inside `/* */`), parsed as C one. -/
+
+def tNode (k : PP.NKind) : PP.PNode := { kind := k, lines := [1] }
+
+def toyL : Sem where
+  extClass := fun f =>
+    if f == "h.h" || f == "b.c" || f == "c.c" || f == "d.c" then some .c
+    else if f == "a.f90" || f == "e.f90" then some .fortran else none
+  parseAs := fun cl f =>
+    if f == "a.f90" || f == "e.f90" || f == "b.c" || f == "c.c" || f == "d.c" then
+      .ok (#[tNode .include, tNode .code], [.node 0 [], .node 1 []])
+    else if f == "h.h" || f == "x.inc" then
+      match cl with
+      | .fortran => .ok (#[tNode .define, tNode .code], [.node 0 [], .node 1 []])
+      | _ => .ok (#[tNode .code], [.node 0 []])
+    else .error (.other "FileNotFoundError")
+  step := fun file idx nd l =>
+    ({ l with assoc := l.assoc ++ [((file, idx), [l.plat.name])] },
+      if nd.kind == .include then .incl (if file == "a.f90" || file == "b.c" then "x.inc" else "h.h") else .stay)
+  findInc := fun p _ _ => (none, p)
+  mkPlat := fun pname _ => .ok { name := pname }
+
+def tE (f : String) : PP.Entry := ⟨f, [], [], []⟩
+
+/-- two platforms, three commands; `h.h` is outside the code base, cached by `c.c` and re-used by `d.c` -/
+def toyCfgOK : Config PP.Entry := [("cpu", [tE "c.c", tE "d.c"]), ("gpu", [tE "a.f90"])]
+def toyCb : List String := ["a.f90", "b.c", "c.c", "d.c", "e.f90"]
+
+/-- the hypotheses of the theorems of this part hold on a non-trivial input (shared header outside
+the code base, several commands and platforms, two language classes) … -/
+example : PreOK toyL toyCb toyCfgOK ∧ NoMix toyL 8 toyCb toyCfgOK ∧
+    NoMix toyL 8 toyCb (select ["cpu"] toyCfgOK) ∧
+    NoMix toyL 8 toyCb [("gpu", [tE "a.f90"]), ("cpu", [tE "d.c", tE "c.c"])] ∧
+    (∀ e, e ∈ [tE "c.c", tE "d.c"] → NoMix toyL 8 toyCb [("cpu", [e])]) := by
+  unfold PreOK NoMix; decide
+
+/-- … and the run is what one expects: 10 attributions, the header's node for both `cpu` commands -/
+example : findC toyL 8 toyCb toyCfgOK = .ok
+    { pairs := [(("c.c", 0), "cpu"), (("h.h", 0), "cpu"), (("c.c", 1), "cpu"),
+                (("d.c", 0), "cpu"), (("h.h", 0), "cpu"), (("d.c", 1), "cpu"),
+                (("a.f90", 0), "gpu"), (("x.inc", 0), "gpu"), (("x.inc", 1), "gpu"), (("a.f90", 1), "gpu")],
+      warns := [] } := by rfl
+
+/-- the cache of that run holds the five pre-parsed files and the two headers, `x.inc` as Fortran -/
+example : (finalCache toyL 8 toyCb toyCfgOK).map (fun e => (e.1, e.2.1)) =
+    [("a.f90", .fortran), ("b.c", .c), ("c.c", .c), ("d.c", .c), ("e.f90", .fortran),
+     ("h.h", .c), ("x.inc", .fortran)] := by decide
+
+def nkeys (r : Except PP.Err (Out FindCache.NodeKey PP.Warn)) : Nat :=
+  match r with | .ok o => o.keys.length | .error _ => 0
+def npairs (r : Except PP.Err (Acc FindCache.NodeKey PP.Warn)) : Nat :=
+  match r with | .ok a => a.pairs.length | .error _ => 0
+
+/-- **F-C08-1 = D19, one command**: from the empty cache, `e.f90` reaches `h.h` (C by extension) and
+parses it as Fortran — 4 nodes visited; the cache-free analysis parses it as C — 3 nodes. -/
+theorem not_cacheTransparent : ¬ CacheTransparent := by
+  intro h
+  have h1 := h toyL 8 [] (tE "e.f90") (Exclude.Inv.nil _)
+  have h2 : nkeys (match cstep toyL 8 [] (tE "e.f90") with
+      | .ok (o, _) => .ok o
+      | .error er => .error er) = nkeys (analyse toyL 8 (tE "e.f90")) := by
+    cases hst : cstep toyL 8 [] (tE "e.f90") with
+    | error er => rw [hst] at h1; simp only at h1; rw [h1]
+    | ok os => obtain ⟨o, s'⟩ := os; rw [hst] at h1; simp only at h1; rw [h1.1]
+  exact absurd h2 (by decide)
+
+/-- **F-C08-1 = D19, two commands**: `a.f90` then `b.c`, both including `x.inc` (no extension
+class, outside the code base).  The cached run shows `b.c` the Fortran tree of `x.inc` (8 attribution
+pairs); `findG` over the cache-free analysis shows it the C tree (7 pairs). -/
+theorem not_cachedEqFindG : ¬ CachedEqFindG := by
+  intro h
+  have h1 := congrArg npairs (h toyL 8 toyCb [("p", [tE "a.f90", tE "b.c"])])
+  exact absurd h1 (by decide)
+
+/-- … and the composition property itself fails for the cached run there: swapping the two commands
+changes what platform `p` uses (node 1 of `x.inc`), although both runs succeed.  With the guard the
+two orders agree (`cached_perm_invariant_partial`); here both orders log a mixing event. -/
+theorem cached_order_dependent :
+    ∃ (S : Sem) (n : Nat) (cb : List String) (cfg cfg' : Config PP.Entry)
+      (r r' : Acc FindCache.NodeKey PP.Warn) (p : String) (k : FindCache.NodeKey),
+      CfgPerm cfg cfg' ∧ findC S n cb cfg = .ok r ∧ findC S n cb cfg' = .ok r' ∧
+      Attr r p k ∧ ¬ Attr r' p k ∧ ¬ NoMix S n cb cfg ∧ ¬ NoMix S n cb cfg' :=
+  ⟨toyL, 8, toyCb, [("p", [tE "a.f90", tE "b.c"])], [("p", [tE "b.c", tE "a.f90"])],
+    { pairs := [(("a.f90", 0), "p"), (("x.inc", 0), "p"), (("x.inc", 1), "p"), (("a.f90", 1), "p"),
+                (("b.c", 0), "p"), (("x.inc", 0), "p"), (("x.inc", 1), "p"), (("b.c", 1), "p")], warns := [] },
+    { pairs := [(("b.c", 0), "p"), (("x.inc", 0), "p"), (("b.c", 1), "p"),
+                (("a.f90", 0), "p"), (("x.inc", 0), "p"), (("a.f90", 1), "p")], warns := [] },
+    "p", ("x.inc", 1),
+    .cons "p" (List.Perm.swap _ _ []) .nil, rfl, rfl, by unfold Attr; decide, by unfold Attr; decide,
+    by unfold NoMix; decide, by unfold NoMix; decide⟩
+
+/-- **F-C08-1 = D19, full run clean but a single-command run is not**: the hypothesis `hsub` of
+`cached_union_of_commands_partial` cannot be dropped.  In `[c.c, e.f90]` the header `h.h` is cached
+as C (its extension class) by `c.c` and `e.f90` re-uses that tree — no mixing event, the run equals
+`findG`; but the tool run on `e.f90` ALONE parses `h.h` as Fortran and uses a node (`h.h`, 1) the
+full run never shows. -/
+theorem single_run_needs_noMix :
+    ∃ (S : Sem) (n : Nat) (cb : List String) (cfg : Config PP.Entry) (p : String) (e : PP.Entry)
+      (r r1 : Acc FindCache.NodeKey PP.Warn) (k : FindCache.NodeKey),
+      e ∈ entriesOf cfg p ∧ NoMix S n cb cfg ∧ ¬ NoMix S n cb [(p, [e])] ∧
+      findC S n cb cfg = .ok r ∧ findC S n cb [(p, [e])] = .ok r1 ∧ Attr r1 p k ∧ ¬ Attr r p k :=
+  ⟨toyL, 8, toyCb, [("p", [tE "c.c", tE "e.f90"])], "p", tE "e.f90",
+    { pairs := [(("c.c", 0), "p"), (("h.h", 0), "p"), (("c.c", 1), "p"),
+                (("e.f90", 0), "p"), (("h.h", 0), "p"), (("e.f90", 1), "p")], warns := [] },
+    { pairs := [(("e.f90", 0), "p"), (("h.h", 0), "p"), (("h.h", 1), "p"), (("e.f90", 1), "p")], warns := [] },
+    ("h.h", 1),
+    by simp [entriesOf], by unfold NoMix; decide, by unfold NoMix; decide, rfl, rfl,
+    by unfold Attr; decide, by unfold Attr; decide⟩
+
+/-! ### a static sufficient condition: one language class
+
+`FindCache.OneClass S cl0`: every file name has extension class `cl0`, or has none and does not parse
+under any class.  Then no run ever logs a mixing event, every cached tree is recorded under `cl0`
+(`FindCache.InvMono`), and the parse cache is LITERALLY transparent — `transparent_state_refines`
+applies as it stands.  (For the driver's semantics `semC fs` the condition is not satisfiable, because
+the extension table is global — `x.f90` is Fortran whether or not it exists; there the applicable
+hypothesis is the run-time `NoMix`.) -/
+
+/-- **cache_transparent, one language class**: `Transparent`, no flag -/
+theorem cache_transparent_oneclass (S : Sem) (cl0 : LClass) (hS : FindCache.OneClass S cl0) (n : Nat) :
+    Transparent (FindCache.InvMono S cl0) (cstep S n) (analyse S n) :=
+  FindCache.cstep_transparent_mono S cl0 hS n
+
+/-- … hence, by `transparent_state_refines`, the cached run equals `findG` for EVERY configuration -/
+theorem find_cached_eq_findG_oneclass (S : Sem) (cl0 : LClass) (hS : FindCache.OneClass S cl0) (n : Nat)
+    (cb : List String) (cfg : Config PP.Entry) : findC S n cb cfg = findRefG S n cb cfg := by
+  unfold findC findRefG
+  cases herr : (prep S cb cfg).loc.err with
+  | some er => rfl
+  | none =>
+    simp only []
+    have h := transparent_state_refines (FindCache.InvMono S cl0) (cstep S n) (analyse S n)
+      (cache_transparent_oneclass S cl0 hS n) _ (FindCache.prep_invMono S cl0 hS cb cfg herr) cfg
+    cases hS : findS (cstep S n) (prep S cb cfg).cache cfg with
+    | error er => rw [hS] at h; exact h
+    | ok as => obtain ⟨a, s'⟩ := as; rw [hS] at h; exact h
+
+/-- … and never logs a mixing event -/
+theorem noMix_oneclass (S : Sem) (cl0 : LClass) (hS : FindCache.OneClass S cl0) (n : Nat)
+    (c : Cache) (e : PP.Entry) (hI : FindCache.InvMono S cl0 c) : mixedStep S n c e = false :=
+  (FindCache.mono_step S cl0 hS n c e hI).1
+
+/-- a one-class toy: `c.c`, `d.c` include `h.h`; nothing else exists -/
+def toyC : Sem where
+  extClass := fun f => if f == "c.c" || f == "d.c" || f == "h.h" then some .c else none
+  parseAs := fun _ f =>
+    if f == "c.c" || f == "d.c" || f == "h.h" then
+      (if f == "h.h" then .ok (#[tNode .code], [.node 0 []])
+       else .ok (#[tNode .include, tNode .code], [.node 0 [], .node 1 []]))
+    else .error (.other "FileNotFoundError")
+  step := fun file idx nd l =>
+    ({ l with assoc := l.assoc ++ [((file, idx), [l.plat.name])] },
+      if nd.kind == .include then .incl "h.h" else .stay)
+  findInc := fun p _ _ => (none, p)
+  mkPlat := fun pname _ => .ok { name := pname }
+
+/-- the hypothesis of the one-class theorems is satisfiable -/
+example : FindCache.OneClass toyC .c := by
+  intro g
+  by_cases h : (g == "c.c" || g == "d.c" || g == "h.h") = true
+  · left; simp only [toyC, h, if_true]
+  · right
+    have h' : (g == "c.c" || g == "d.c" || g == "h.h") = false := by simpa using h
+    exact ⟨by simp only [toyC, h', Bool.false_eq_true, if_false],
+      fun cl => ⟨.other "FileNotFoundError", by simp only [toyC, h', Bool.false_eq_true, if_false]⟩⟩
+
+example : findC toyC 8 ["c.c", "d.c"] [("cpu", [tE "c.c", tE "d.c"]), ("gpu", [tE "d.c"])] = .ok
+    { pairs := [(("c.c", 0), "cpu"), (("h.h", 0), "cpu"), (("c.c", 1), "cpu"),
+                (("d.c", 0), "cpu"), (("h.h", 0), "cpu"), (("d.c", 1), "cpu"),
+                (("d.c", 0), "gpu"), (("h.h", 0), "gpu"), (("d.c", 1), "gpu")], warns := [] } := by rfl
+
+end Cache
 
 end CbiVerif.C08
